@@ -355,17 +355,49 @@ theorem fileop_line_step {cfg : Cfg} (hc : FHC cfg) {m : M} {l : L} (h : InHdr m
     ⟨hz.good.order, hz.good.quiet, hz.good.noPlus⟩⟩, tz, by show z.n + 1 = m.n + 1; rw [nz]⟩
   unfold step; rw [stepInit_git l h.src, ec]
 
-/-- the `--- ` line of a section -/
-def isMinusLine (l : L) : Bool := startsWith l.text ['-', '-', '-', ' '] && !l.commitRe
-
-/-- the `+++ ` line of a section -/
-def isPlusLine (l : L) : Bool := startsWith l.text ['+', '+', '+', ' '] && !l.commitRe
-
 theorem threeDashes_of_le {c : Int} (h : c ≤ -4096) : threeDashesExpected c = true := by
   unfold threeDashesExpected
   split
   · omega
   · rfl
+
+/-- the line of a section that names the old file: `--- `, `rename from `, `copy from ` -/
+def isMinusLine (l : L) : Bool := startsWithAny l.text Markers.minusLine && !l.commitRe
+
+/-- the line of a section that names the new file: `+++ `, `rename to `, `copy to ` -/
+def isPlusLine (l : L) : Bool := startsWithAny l.text Markers.plusLine && !l.commitRe
+
+theorem minusMarker_facts {l : L} (h : startsWithAny l.text Markers.minusLine = true) :
+    startsWith l.text Markers.diffLine = false ∧ startsWithAny l.text Markers.fileOperationLine = false ∧
+      startsWithAny l.text Markers.plusLine = false ∧ TailNo l := by
+  simp only [startsWithAny, Markers.minusLine, List.any_cons, List.any_nil, Bool.or_false, Bool.or_eq_true] at h
+  rcases h with h1 | h1 | h1
+  all_goals
+    obtain ⟨rest, ht⟩ := startsWith_split h1
+    refine ⟨by simp [ht, startsWith, Markers.diffLine, List.isPrefixOf],
+      by simp [ht, startsWithAny, startsWith, Markers.fileOperationLine, List.isPrefixOf],
+      by simp [ht, startsWithAny, startsWith, Markers.plusLine, List.isPrefixOf], ?_⟩
+    constructor <;> simp [ht, startsWith, Markers.hunkHeader, Markers.oldMode, Markers.newMode, Markers.binaryFiles,
+      Markers.submoduleLog, List.isPrefixOf]
+
+theorem plusMarker_facts {l : L} (h : startsWithAny l.text Markers.plusLine = true) :
+    startsWith l.text Markers.diffLine = false ∧ startsWithAny l.text Markers.fileOperationLine = false ∧
+      startsWithAny l.text Markers.minusLine = false ∧ TailNo l := by
+  simp only [startsWithAny, Markers.plusLine, List.any_cons, List.any_nil, Bool.or_false, Bool.or_eq_true] at h
+  rcases h with h1 | h1 | h1
+  all_goals
+    obtain ⟨rest, ht⟩ := startsWith_split h1
+    refine ⟨by simp [ht, startsWith, Markers.diffLine, List.isPrefixOf],
+      by simp [ht, startsWithAny, startsWith, Markers.fileOperationLine, List.isPrefixOf],
+      by simp [ht, startsWithAny, startsWith, Markers.minusLine, List.isPrefixOf], ?_⟩
+    constructor <;> simp [ht, startsWith, Markers.hunkHeader, Markers.oldMode, Markers.newMode, Markers.binaryFiles,
+      Markers.submoduleLog, List.isPrefixOf]
+
+theorem minusLineTest_true (m : M) {l : L} (hlt : headerLineTest m = true) (hc : m.counter ≤ -4096)
+    (h : startsWithAny l.text Markers.minusLine = true) : minusLineTest m l = true := by
+  unfold minusLineTest
+  simp only [startsWithAny, Markers.minusLine, List.any_cons, List.any_nil, Bool.or_false, Bool.or_eq_true] at h
+  rcases h with h1 | h1 | h1 <;> simp [hlt, Markers.minusLine, startsWithAny, h1, threeDashes_of_le hc]
 
 theorem flushMP_keeps (y : M) : (flushMP y).counter = y.counter ∧ (flushMP y).handledPair = y.handledPair ∧
     (flushMP y).currentPair = y.currentPair ∧ (flushMP y).minusFile = y.minusFile ∧ (flushMP y).minusEvent = y.minusEvent ∧
@@ -383,15 +415,7 @@ theorem minus_line_step {cfg : Cfg} (hc : FHC cfg) {m : M} {l : L} (h : InHdr m)
   unfold isMinusLine at hl
   simp only [Bool.and_eq_true, Bool.not_eq_true'] at hl
   obtain ⟨hsw, hcr⟩ := hl
-  obtain ⟨rest, ht⟩ := startsWith_split hsw
-  have no : TailNo l := by
-    constructor <;> simp [ht, startsWith, Markers.hunkHeader, Markers.oldMode, Markers.newMode, Markers.binaryFiles,
-      Markers.submoduleLog, List.isPrefixOf]
-  have hdiff : startsWith l.text Markers.diffLine = false := by simp [ht, startsWith, Markers.diffLine, List.isPrefixOf]
-  have hfo : startsWithAny l.text Markers.fileOperationLine = false := by
-    simp [ht, startsWithAny, startsWith, Markers.fileOperationLine, List.isPrefixOf]
-  have hpl : startsWithAny l.text Markers.plusLine = false := by
-    simp [ht, startsWithAny, startsWith, Markers.plusLine, List.isPrefixOf]
+  obtain ⟨hdiff, hfo, hpl, no⟩ := minusMarker_facts hsw
   have hlt : headerLineTest m = true := by unfold headerLineTest; simp [h.st, isDiffHeader]
   have hgit : decide (m.source = Source.gitDiff) = true := by simp [h.src]
   have hnu : (m.source = Source.diffUnified) = False := by simp [h.src]
@@ -400,9 +424,7 @@ theorem minus_line_step {cfg : Cfg} (hc : FHC cfg) {m : M} {l : L} (h : InHdr m)
   have e3 := handleDiffHeaderDiff_not_mine cfg m l hdiff
   have e4 := handleFileOperation_not_mine cfg m l (by simp [hfo])
   have e5 : handleMinusLine cfg m l = .ok (false, flushMP (minusUpd m l)) := by
-    have htest : minusLineTest m l = true := by
-      unfold minusLineTest
-      simp [hlt, Markers.minusLine, hsw, threeDashes_of_le h.cnt]
+    have htest : minusLineTest m l = true := minusLineTest_true m hlt h.cnt hsw
     unfold handleMinusLine shouldWriteGeneric
     simp only [htest, Bool.not_true, Bool.false_eq_true, if_false, hc.notCO, hgit, hnu]
     rfl
@@ -453,6 +475,7 @@ theorem hdrWritten_spec {cfg : Cfg} (hc : FHC cfg) (y : M) (hsrc : y.source = .g
     (hdrWritten cfg y).st = y.st ∧ (hdrWritten cfg y).source = y.source ∧ (hdrWritten cfg y).counter = y.counter ∧
     (hdrWritten cfg y).modeInfo = [] ∧ (hdrWritten cfg y).handledPair = (hdrWritten cfg y).currentPair ∧
     (hdrWritten cfg y).n = y.n ∧ (hdrWritten cfg y).minus = [] ∧ (hdrWritten cfg y).plus = [] ∧
+    (hdrWritten cfg y).currentPair = y.currentPair ∧ (hdrWritten cfg y).minusFile = y.minusFile ∧
     fileTL (hdrWritten cfg y) = fileTL y ++
       [{ kind := .file, text := fileRowText cfg (fileChangeDescription cfg.labels y.minusFile y.plusFile false y.minusEvent),
          src := y.n }] := by
@@ -463,14 +486,16 @@ theorem hdrWritten_spec {cfg : Cfg} (hc : FHC cfg) (y : M) (hsrc : y.source = .g
     unfold handleHeaderLine; rw [hdu]; rfl
   have hfile := writeGeneric_file hc (emit y) (fileChangeDescription cfg.labels y.minusFile y.plusFile false y.minusEvent)
     (fileChangeDescription cfg.labels y.minusFile y.plusFile false y.minusEvent) hmi rfl hm hp
-  have hwg : ∀ t r : Str, (writeGeneric cfg (emit y) t r).counter = y.counter ∧ (writeGeneric cfg (emit y) t r).modeInfo = [] := by
+  have hwg : ∀ t r : Str, (writeGeneric cfg (emit y) t r).counter = y.counter ∧ (writeGeneric cfg (emit y) t r).modeInfo = [] ∧
+      (writeGeneric cfg (emit y) t r).currentPair = y.currentPair ∧ (writeGeneric cfg (emit y) t r).minusFile = y.minusFile := by
     intro t r
     unfold writeGeneric
     simp only [hc.notOmitted, hc.notCO, Bool.false_eq_true, false_and, if_false, not_false_eq_true]
-    exact ⟨(direct_keeps _ _).1, trivial⟩
+    exact ⟨(direct_keeps _ _).1, trivial, (direct_keeps _ _).2.2.1, (direct_keeps _ _).2.2.2.1⟩
   unfold hdrWritten
   rw [hw]
-  refine ⟨by simp, by simp, (hwg _ _).1, (hwg _ _).2, rfl, by simp, by simp [hm], by simp [hp], ?_⟩
+  refine ⟨by simp, by simp, (hwg _ _).1, (hwg _ _).2.1, rfl, by simp, by simp [hm], by simp [hp], (hwg _ _).2.2.1,
+    (hwg _ _).2.2.2, ?_⟩
   have : fileTL { writeGeneric cfg (emit y) (fileChangeDescription cfg.labels y.minusFile y.plusFile false y.minusEvent)
       (fileChangeDescription cfg.labels y.minusFile y.plusFile false y.minusEvent) with
       handledPair := (writeGeneric cfg (emit y) (fileChangeDescription cfg.labels y.minusFile y.plusFile false y.minusEvent)
@@ -506,21 +531,12 @@ def headerRow (cfg : Cfg) (minusFile : Str) (minusEvent : FileEvent) (pl : L) (n
 /-- (D) the `+++ ` line: exactly one file row is written, for this section's two names -/
 theorem plus_line_step {cfg : Cfg} (hc : FHC cfg) {m : M} {l : L} (h : InHdr m) (hl : isPlusLine l = true) :
     ∃ m', step cfg m l = .ok m' ∧ AfterPlus m' ∧ m'.n = m.n + 1 ∧
-      fileTL m' = fileTL m ++ [headerRow cfg m.minusFile m.minusEvent l m.n] := by
+      fileTL m' = fileTL m ++ [headerRow cfg m.minusFile m.minusEvent l m.n] ∧
+      m'.handledPair = some (m.minusFile, (parseDiffHeaderLine l.text true).1) ∧ m'.minusFile = m.minusFile := by
   unfold isPlusLine at hl
   simp only [Bool.and_eq_true, Bool.not_eq_true'] at hl
-  obtain ⟨hsw, hcr⟩ := hl
-  obtain ⟨rest, ht⟩ := startsWith_split hsw
-  have no : TailNo l := by
-    constructor <;> simp [ht, startsWith, Markers.hunkHeader, Markers.oldMode, Markers.newMode, Markers.binaryFiles,
-      Markers.submoduleLog, List.isPrefixOf]
-  have hdiff : startsWith l.text Markers.diffLine = false := by simp [ht, startsWith, Markers.diffLine, List.isPrefixOf]
-  have hfo : startsWithAny l.text Markers.fileOperationLine = false := by
-    simp [ht, startsWithAny, startsWith, Markers.fileOperationLine, List.isPrefixOf]
-  have hmn : startsWithAny l.text Markers.minusLine = false := by
-    simp [ht, startsWithAny, startsWith, Markers.minusLine, List.isPrefixOf]
-  have hpl : startsWithAny l.text Markers.plusLine = true := by
-    simp [ht, startsWithAny, startsWith, Markers.plusLine, List.isPrefixOf]
+  obtain ⟨hpl, hcr⟩ := hl
+  obtain ⟨hdiff, hfo, hmn, no⟩ := plusMarker_facts hpl
   have hgit : decide (m.source = Source.gitDiff) = true := by simp [h.src]
   have e1 := handleCommitMeta_not_mine cfg m l hcr
   have e2 : handleDiffStat cfg m l = .ok (false, m) := rfl
@@ -550,9 +566,9 @@ theorem plus_line_step {cfg : Cfg} (hc : FHC cfg) {m : M} {l : L} (h : InHdr m) 
     simp only [hc.notCO, Bool.false_eq_true, if_false, hsh, hyhp, hycp, true_and]
     simp only [ne_eq, reduceCtorEq, not_false_eq_true, if_true]
     rfl
-  obtain ⟨s1, s2, s3, s4, s5, s6, s7, s8, s9⟩ := hdrWritten_spec hc y hysrc hymi hym hyp
+  obtain ⟨s1, s2, s3, s4, s5, s6, s7, s8, s10, s11, s9⟩ := hdrWritten_spec hc y hysrc hymi hym hyp
   obtain ⟨z, hz⟩ : ∃ z, z = hdrWritten cfg y := ⟨_, rfl⟩
-  rw [← hz] at e6 s1 s2 s3 s4 s5 s6 s7 s8 s9
+  rw [← hz] at e6 s1 s2 s3 s4 s5 s6 s7 s8 s9 s10 s11
   have hzst : z.st = .diffHeader .unified := by rw [s1]; exact hyst
   have hzsrc : z.source = .gitDiff := by rw [s2]; exact hysrc
   have ec : chain cfg l Generated.handlerOrder m = .ok (emit (emit (emit z))) := by
@@ -560,7 +576,7 @@ theorem plus_line_step {cfg : Cfg} (hc : FHC cfg) {m : M} {l : L} (h : InHdr m) 
       chain_skip (by rfl) e5, chain_skip (by rfl) e6]
     exact hdr_tail hc z l hzst hzsrc no
   have g3 : Good (emit (emit (emit z))) := (chain_step _ ec h.good).good
-  refine ⟨{ emit (emit (emit z)) with n := (emit (emit (emit z))).n + 1 }, ?_, ?_, ?_, ?_⟩
+  refine ⟨{ emit (emit (emit z)) with n := (emit (emit (emit z))).n + 1 }, ?_, ?_, ?_, ?_, ?_, ?_⟩
   · unfold step; rw [stepInit_git l h.src, ec]
   · refine ⟨hzst, hzsrc, ?_, s4, s5, ⟨g3.order, g3.quiet, g3.noPlus⟩⟩
     show z.counter ≤ -4096
@@ -570,6 +586,128 @@ theorem plus_line_step {cfg : Cfg} (hc : FHC cfg) {m : M} {l : L} (h : InHdr m) 
   · show fileTL (emit (emit (emit z))) = _
     rw [fileTL_emit, fileTL_emit, fileTL_emit, s9, hytl, k4, k5, k6, hyn]
     rfl
+  · show z.handledPair = _
+    rw [s5, s10, hycp]
+  · show z.minusFile = m.minusFile
+    rw [s11, k4]; rfl
+
+/-- (B″) an index-like line after the header has been written -/
+theorem noise_line_step_after {cfg : Cfg} (hc : FHC cfg) {m : M} {l : L} (h : AfterPlus m) (hl : Noise l) :
+    ∃ m', step cfg m l = .ok m' ∧ AfterPlus m' ∧ fileTL m' = fileTL m ∧ m'.n = m.n + 1 ∧
+      m'.minusFile = m.minusFile ∧ m'.handledPair = m.handledPair := by
+  have e1 := handleCommitMeta_not_mine cfg m l hl.commit
+  have e2 : handleDiffStat cfg m l = .ok (false, m) := rfl
+  have e3 := handleDiffHeaderDiff_not_mine cfg m l hl.diff
+  have e4 := handleFileOperation_not_mine cfg m l (by simp [hl.fileOp])
+  have e5 := handleMinusLine_not_mine cfg m l (minusLineTest_false m hl.minus)
+  have e6 := handlePlusLine_not_mine cfg m l (by unfold plusLineTest; simp [hl.plus])
+  have ec : chain cfg l Generated.handlerOrder m = .ok (emit (emit (emit m))) := by
+    rw [handlerOrder_split, chain_skip (by rfl) e1, chain_skip (by rfl) e2, chain_skip (by rfl) e3, chain_skip (by rfl) e4,
+      chain_skip (by rfl) e5, chain_skip (by rfl) e6]
+    exact hdr_tail hc m l h.st h.src hl.toTailNo
+  have g3 : Good (emit (emit (emit m))) := (chain_step _ ec h.good).good
+  refine ⟨{ emit (emit (emit m)) with n := (emit (emit (emit m))).n + 1 }, ?_, ?_, ?_, rfl, rfl, rfl⟩
+  · unfold step; rw [stepInit_git l h.src, ec]
+  · exact ⟨h.st, h.src, h.cnt, h.mode, h.pair, ⟨g3.order, g3.quiet, g3.noPlus⟩⟩
+  · show fileTL (emit (emit (emit m))) = fileTL m
+    rw [fileTL_emit, fileTL_emit, fileTL_emit]
+
+/-- (C″) a second line naming the old file (the `--- ` line after `rename from`), header written -/
+theorem minus_line_step_after {cfg : Cfg} (hc : FHC cfg) {m : M} {l : L} (h : AfterPlus m) (hl : isMinusLine l = true) :
+    ∃ m', step cfg m l = .ok m' ∧ AfterPlus m' ∧ fileTL m' = fileTL m ∧ m'.n = m.n + 1 ∧
+      m'.minusFile = (parseDiffHeaderLine l.text true).1 ∧ m'.handledPair = m.handledPair := by
+  unfold isMinusLine at hl
+  simp only [Bool.and_eq_true, Bool.not_eq_true'] at hl
+  obtain ⟨hsw, hcr⟩ := hl
+  obtain ⟨hdiff, hfo, hpl, no⟩ := minusMarker_facts hsw
+  have hlt : headerLineTest m = true := by unfold headerLineTest; simp [h.st, isDiffHeader]
+  have hgit : decide (m.source = Source.gitDiff) = true := by simp [h.src]
+  have hnu : (m.source = Source.diffUnified) = False := by simp [h.src]
+  have e1 := handleCommitMeta_not_mine cfg m l hcr
+  have e2 : handleDiffStat cfg m l = .ok (false, m) := rfl
+  have e3 := handleDiffHeaderDiff_not_mine cfg m l hdiff
+  have e4 := handleFileOperation_not_mine cfg m l (by simp [hfo])
+  have e5 : handleMinusLine cfg m l = .ok (false, flushMP (minusUpd m l)) := by
+    have htest : minusLineTest m l = true := minusLineTest_true m hlt h.cnt hsw
+    unfold handleMinusLine shouldWriteGeneric
+    simp only [htest, Bool.not_true, Bool.false_eq_true, if_false, hc.notCO, hgit, hnu]
+    rfl
+  obtain ⟨x, hx⟩ : ∃ x, x = flushMP (minusUpd m l) := ⟨_, rfl⟩
+  rw [← hx] at e5
+  obtain ⟨k1, k2, k3, k4, k5, k6⟩ := flushMP_keeps (minusUpd m l)
+  rw [← hx] at k1 k2 k3 k4 k5 k6
+  have hxst : x.st = .diffHeader .unified := by rw [hx, flushMP_st]; exact h.st
+  have hxsrc : x.source = .gitDiff := by rw [hx, flushMP_source]; exact h.src
+  have hxmi : x.modeInfo = [] := by rw [hx, flushMP_modeInfo]; exact h.mode
+  have hxn : x.n = m.n := by rw [hx, flushMP_n]; rfl
+  have hxtl : fileTL x = fileTL m := by rw [hx, fileTL_flushMP]; exact fileTL_congr rfl
+  have e6 := handlePlusLine_not_mine cfg x l (by unfold plusLineTest; simp [hpl])
+  have ec : chain cfg l Generated.handlerOrder m = .ok (emit (emit (emit x))) := by
+    rw [handlerOrder_split, chain_skip (by rfl) e1, chain_skip (by rfl) e2, chain_skip (by rfl) e3, chain_skip (by rfl) e4,
+      chain_skip (by rfl) e5, chain_skip (by rfl) e6]
+    exact hdr_tail hc x l hxst hxsrc no
+  have g3 : Good (emit (emit (emit x))) := (chain_step _ ec h.good).good
+  refine ⟨{ emit (emit (emit x)) with n := (emit (emit (emit x))).n + 1 }, ?_, ?_, ?_, ?_, k4, k2⟩
+  · unfold step; rw [stepInit_git l h.src, ec]
+  · refine ⟨hxst, hxsrc, ?_, hxmi, ?_, ⟨g3.order, g3.quiet, g3.noPlus⟩⟩
+    · show x.counter ≤ -4096
+      rw [k1]; exact h.cnt
+    · show x.handledPair = x.currentPair
+      rw [k2, k3]; exact h.pair
+  · show fileTL (emit (emit (emit x))) = fileTL m
+    rw [fileTL_emit, fileTL_emit, fileTL_emit, hxtl]
+  · show x.n + 1 = m.n + 1
+    rw [hxn]
+
+/-- (D″) a second line naming the new file (the `+++ ` line after `rename to`) that names the same
+pair: the header is not written again -/
+theorem plus_line_step_after {cfg : Cfg} (hc : FHC cfg) {m : M} {l : L} (h : AfterPlus m) (hl : isPlusLine l = true)
+    (hsame : m.handledPair = some (m.minusFile, (parseDiffHeaderLine l.text true).1)) :
+    ∃ m', step cfg m l = .ok m' ∧ AfterPlus m' ∧ fileTL m' = fileTL m ∧ m'.n = m.n + 1 := by
+  unfold isPlusLine at hl
+  simp only [Bool.and_eq_true, Bool.not_eq_true'] at hl
+  obtain ⟨hpl, hcr⟩ := hl
+  obtain ⟨hdiff, hfo, hmn, no⟩ := plusMarker_facts hpl
+  have hgit : decide (m.source = Source.gitDiff) = true := by simp [h.src]
+  have e1 := handleCommitMeta_not_mine cfg m l hcr
+  have e2 : handleDiffStat cfg m l = .ok (false, m) := rfl
+  have e3 := handleDiffHeaderDiff_not_mine cfg m l hdiff
+  have e4 := handleFileOperation_not_mine cfg m l (by simp [hfo])
+  have e5 := handleMinusLine_not_mine cfg m l (minusLineTest_false m hmn)
+  obtain ⟨y, hy⟩ : ∃ y, y = flushMP (plusUpd m l) := ⟨_, rfl⟩
+  obtain ⟨k1, k2, k3, k4, k5, k6⟩ := flushMP_keeps (plusUpd m l)
+  rw [← hy] at k1 k2 k3 k4 k5 k6
+  have hyst : y.st = .diffHeader .unified := by rw [hy, flushMP_st]; exact h.st
+  have hysrc : y.source = .gitDiff := by rw [hy, flushMP_source]; exact h.src
+  have hymi : y.modeInfo = [] := by rw [hy, flushMP_modeInfo]; exact h.mode
+  have hyn : y.n = m.n := by rw [hy, flushMP_n]; rfl
+  have hytl : fileTL y = fileTL m := by rw [hy, fileTL_flushMP]; exact fileTL_congr rfl
+  have hypair : y.handledPair = y.currentPair := by
+    rw [k2, k3]
+    show m.handledPair = some (m.minusFile, (parseDiffHeaderLine l.text true).1)
+    exact hsame
+  have e6 : handlePlusLine cfg m l = .ok (false, y) := by
+    have htest : plusLineTest m l = true := by unfold plusLineTest; simp [h.st, isDiffHeader, hpl]
+    unfold handlePlusLine
+    simp only [htest, Bool.not_true, Bool.false_eq_true, if_false, hgit]
+    change Except.ok (plusLineFinish cfg (flushMP (plusUpd m l)) l) = _
+    rw [← hy]
+    unfold plusLineFinish shouldWriteGeneric
+    simp only [hc.notCO, Bool.false_eq_true, if_false, hypair, ne_eq, not_true_eq_false, and_false]
+  have ec : chain cfg l Generated.handlerOrder m = .ok (emit (emit (emit y))) := by
+    rw [handlerOrder_split, chain_skip (by rfl) e1, chain_skip (by rfl) e2, chain_skip (by rfl) e3, chain_skip (by rfl) e4,
+      chain_skip (by rfl) e5, chain_skip (by rfl) e6]
+    exact hdr_tail hc y l hyst hysrc no
+  have g3 : Good (emit (emit (emit y))) := (chain_step _ ec h.good).good
+  refine ⟨{ emit (emit (emit y)) with n := (emit (emit (emit y))).n + 1 }, ?_, ?_, ?_, ?_⟩
+  · unfold step; rw [stepInit_git l h.src, ec]
+  · refine ⟨hyst, hysrc, ?_, hymi, hypair, ⟨g3.order, g3.quiet, g3.noPlus⟩⟩
+    show y.counter ≤ -4096
+    rw [k1]; exact h.cnt
+  · show fileTL (emit (emit (emit y))) = fileTL m
+    rw [fileTL_emit, fileTL_emit, fileTL_emit, hytl]
+  · show y.n + 1 = m.n + 1
+    rw [hyn]
 
 -- the hunks of a section ---------------------------------------------------------------
 
@@ -852,23 +990,36 @@ theorem body_line_step {cfg : Cfg} {m : M} {l : L} (h : InHunk m) (hl : BodyL l)
 
 -- sections -----------------------------------------------------------------------------
 
-/-- an ordinary section of a git diff -/
+/-- an ordinary section of a git diff. `again`: a renamed or copied file that also has changes
+names its two files a second time (index-like lines, then the `--- ` and `+++ ` lines). -/
 structure Sec where
   d : L
   noise : List L
   mi : L
   pl : L
+  again : Option (List L × L × L) := none
   hunks : List L
 
-def Sec.lines (s : Sec) : List L := s.d :: (s.noise ++ (s.mi :: s.pl :: s.hunks))
+def Sec.againLines (s : Sec) : List L :=
+  match s.again with
+  | none => []
+  | some (n2, a, b) => n2 ++ [a, b]
 
-/-- `diff --git` line; index-like and `new file mode` / `deleted file mode` lines; `--- ` line; `+++ ` line; hunk-header lines and hunk lines,
-the first of which is a hunk-header line -/
+def Sec.lines (s : Sec) : List L := s.d :: (s.noise ++ (s.mi :: s.pl :: (s.againLines ++ s.hunks)))
+
+/-- `diff --git` line; index-like and `new file mode` / `deleted file mode` lines; the line naming
+the old file (`--- `, `rename from `, `copy from `); the line naming the new file; optionally the
+two names again (same names); hunk-header lines and hunk lines, the first of which is a hunk-header
+line -/
 structure Sec.WF (s : Sec) : Prop where
   d : isDiffGitLine s.d = true
   noise : ∀ x ∈ s.noise, Noise x ∨ isFileOpLine x = true
   mi : isMinusLine s.mi = true
   pl : isPlusLine s.pl = true
+  again : ∀ n2 a b, s.again = some (n2, a, b) →
+    (∀ x ∈ n2, Noise x) ∧ isMinusLine a = true ∧ isPlusLine b = true ∧
+    (parseDiffHeaderLine a.text true).1 = (parseDiffHeaderLine s.mi.text true).1 ∧
+    (parseDiffHeaderLine b.text true).1 = (parseDiffHeaderLine s.pl.text true).1
   hunks : ∀ x ∈ s.hunks, isHHLineG x = true ∨ BodyL x
   first : ∀ x, s.hunks.head? = some x → isHHLineG x = true
 
@@ -882,6 +1033,13 @@ theorem runFrom_cons_ok {cfg : Cfg} {m mf : M} {l : L} {ls : List L} (e : runFro
   split at e
   · cases e
   · rename_i m1 e1; exact ⟨m1, e1, e⟩
+
+theorem runFrom_append_ok {cfg : Cfg} {m mf : M} {xs ys : List L} (e : runFrom cfg m (xs ++ ys) = .ok mf) :
+    ∃ m1, runFrom cfg m xs = .ok m1 ∧ runFrom cfg m1 ys = .ok mf := by
+  rw [runFrom_append] at e
+  cases e1 : runFrom cfg m xs with
+  | error err => simp [e1] at e
+  | ok m1 => simp only [e1] at e; exact ⟨m1, rfl, e⟩
 
 theorem noise_run {cfg : Cfg} (hc : FHC cfg) : ∀ (ls : List L) {m mf : M}, InHdr m →
     (∀ x ∈ ls, Noise x ∨ isFileOpLine x = true) →
@@ -900,6 +1058,17 @@ theorem noise_run {cfg : Cfg} (hc : FHC cfg) : ∀ (ls : List L) {m mf : M}, InH
     obtain ⟨h2, t2, n2⟩ := noise_run hc ls h1 (fun x hx => hn x (List.mem_cons_of_mem _ hx)) er
     exact ⟨h2, t2.trans t1, by rw [n2, n1, List.length_cons]; omega⟩
 
+theorem noise_run_after {cfg : Cfg} (hc : FHC cfg) : ∀ (ls : List L) {m mf : M}, AfterPlus m → (∀ x ∈ ls, Noise x) →
+    runFrom cfg m ls = .ok mf →
+    AfterPlus mf ∧ fileTL mf = fileTL m ∧ mf.n = m.n + ls.length ∧ mf.minusFile = m.minusFile ∧ mf.handledPair = m.handledPair
+  | [], m, mf, h, _, e => by simp only [runFrom] at e; cases e; exact ⟨h, rfl, rfl, rfl, rfl⟩
+  | l :: ls, m, mf, h, hn, e => by
+    obtain ⟨m1, e1, er⟩ := runFrom_cons_ok e
+    obtain ⟨m1', e1', h1, t1, n1, f1, p1⟩ := noise_line_step_after hc h (hn l (List.mem_cons_self ..))
+    rw [e1] at e1'; cases e1'
+    obtain ⟨h2, t2, n2, f2, p2⟩ := noise_run_after hc ls h1 (fun x hx => hn x (List.mem_cons_of_mem _ hx)) er
+    exact ⟨h2, t2.trans t1, by rw [n2, n1, List.length_cons]; omega, f2.trans f1, p2.trans p1⟩
+
 theorem hunks_run {cfg : Cfg} : ∀ (ls : List L) {m mf : M}, InHunk m → (∀ x ∈ ls, isHHLineG x = true ∨ BodyL x) →
     runFrom cfg m ls = .ok mf →
     InHunk mf ∧ fileTL mf = fileTL m ∧ mf.n = m.n + ls.length
@@ -915,7 +1084,36 @@ theorem hunks_run {cfg : Cfg} : ∀ (ls : List L) {m mf : M}, InHunk m → (∀ 
     obtain ⟨h2, t2, n2⟩ := hunks_run ls h1 (fun x hx => hl x (List.mem_cons_of_mem _ hx)) er
     exact ⟨h2, t2.trans t1, by rw [n2, n1, List.length_cons]; omega⟩
 
-/-- one section: exactly one file row, written at its `+++ ` line -/
+/-- the second naming of the two files writes nothing -/
+theorem again_run {cfg : Cfg} (hc : FHC cfg) (s : Sec) (w : s.WF) {m mf : M} (h : AfterPlus m)
+    (hmf : m.minusFile = (parseDiffHeaderLine s.mi.text true).1)
+    (hhp : m.handledPair = some ((parseDiffHeaderLine s.mi.text true).1, (parseDiffHeaderLine s.pl.text true).1))
+    (e : runFrom cfg m s.againLines = .ok mf) :
+    AfterPlus mf ∧ fileTL mf = fileTL m ∧ mf.n = m.n + s.againLines.length := by
+  unfold Sec.againLines at e ⊢
+  cases ha : s.again with
+  | none =>
+    simp only [ha, runFrom] at e
+    cases e
+    exact ⟨h, rfl, rfl⟩
+  | some t =>
+    obtain ⟨n2, a, b⟩ := t
+    simp only [ha] at e ⊢
+    obtain ⟨wn, wa, wb, ea, eb⟩ := w.again n2 a b ha
+    obtain ⟨m1, e1, er1⟩ := runFrom_append_ok e
+    obtain ⟨h1, t1, n1, f1, p1⟩ := noise_run_after hc n2 h wn e1
+    obtain ⟨m2, e2, er2⟩ := runFrom_cons_ok er1
+    obtain ⟨m2', e2', h2, t2, nn2, f2, p2⟩ := minus_line_step_after hc h1 wa
+    rw [e2] at e2'; cases e2'
+    obtain ⟨m3, e3, er3⟩ := runFrom_cons_ok er2
+    obtain ⟨m3', e3', h3, t3, n3⟩ := plus_line_step_after hc h2 wb (by rw [p2, p1, hhp, f2, ea, eb])
+    rw [e3] at e3'; cases e3'
+    simp only [runFrom] at er3
+    cases er3
+    refine ⟨h3, by rw [t3, t2, t1], ?_⟩
+    rw [n3, nn2, n1]; simp; omega
+
+/-- one section: exactly one file row, written at the line that names its new file -/
 theorem sec_run {cfg : Cfg} (hc : FHC cfg) (s : Sec) (w : s.WF) {m mf : M} (h : Settled m)
     (e : runFrom cfg m s.lines = .ok mf) :
     Settled mf ∧ fileTL mf = fileTL m ++ [s.row cfg m.n] ∧ mf.n = m.n + s.lines.length := by
@@ -923,45 +1121,46 @@ theorem sec_run {cfg : Cfg} (hc : FHC cfg) (s : Sec) (w : s.WF) {m mf : M} (h : 
   obtain ⟨m1, e1, er1⟩ := runFrom_cons_ok e
   obtain ⟨m1', e1', h1, t1, n1⟩ := diff_line_step hc h w.d
   rw [e1] at e1'; cases e1'
-  rw [runFrom_append] at er1
-  cases e2 : runFrom cfg m1 s.noise with
-  | error err => simp [e2] at er1
-  | ok m2 =>
-    simp only [e2] at er1
-    obtain ⟨h2, t2, n2⟩ := noise_run hc s.noise h1 w.noise e2
-    obtain ⟨m3, e3, er3⟩ := runFrom_cons_ok er1
-    obtain ⟨m3', e3', h3, t3, n3, mf3, me3⟩ := minus_line_step hc h2 w.mi
-    rw [e3] at e3'; cases e3'
-    obtain ⟨m4, e4, er4⟩ := runFrom_cons_ok er3
-    obtain ⟨m4', e4', h4, n4, t4⟩ := plus_line_step hc h3 w.pl
-    rw [e4] at e4'; cases e4'
-    have hrow : headerRow cfg m3.minusFile m3.minusEvent s.pl m3.n = s.row cfg m.n := by
-      unfold Sec.row
-      rw [mf3, me3, n3, n2, n1]
-      congr 1
-      omega
-    have hlen : (s.d :: (s.noise ++ s.mi :: s.pl :: s.hunks)).length = s.noise.length + s.hunks.length + 3 := by
-      simp only [List.length_cons, List.length_append]; omega
-    cases hh : s.hunks with
-    | nil =>
-      rw [hh] at er4
-      simp only [runFrom] at er4
-      cases er4
-      refine ⟨h4.settled, ?_, ?_⟩
-      · rw [t4, t3, t2, t1, hrow]
-      · show mf.n = m.n + (s.d :: (s.noise ++ s.mi :: s.pl :: s.hunks)).length
-        rw [hlen, hh, n4, n3, n2, n1]; simp; omega
-    | cons x xs =>
-      rw [hh] at er4
-      obtain ⟨m5, e5, er5⟩ := runFrom_cons_ok er4
-      have hx : isHHLineG x = true := w.first x (by rw [hh]; rfl)
-      obtain ⟨m5', e5', h5, t5, n5⟩ := hh_line_step (cfg := cfg) (Or.inl h4.st) h4.src h4.cnt h4.mode h4.pair h4.good hx
-      rw [e5] at e5'; cases e5'
-      obtain ⟨h6, t6, n6⟩ := hunks_run xs h5 (fun y hy => w.hunks y (by rw [hh]; exact List.mem_cons_of_mem _ hy)) er5
-      refine ⟨h6.settled, ?_, ?_⟩
-      · rw [t6, t5, t4, t3, t2, t1, hrow]
-      · show mf.n = m.n + (s.d :: (s.noise ++ s.mi :: s.pl :: s.hunks)).length
-        rw [hlen, hh, n6, n5, n4, n3, n2, n1]; simp; omega
+  obtain ⟨m2, e2, er2⟩ := runFrom_append_ok er1
+  obtain ⟨h2, t2, n2⟩ := noise_run hc s.noise h1 w.noise e2
+  obtain ⟨m3, e3, er3⟩ := runFrom_cons_ok er2
+  obtain ⟨m3', e3', h3, t3, n3, mf3, me3⟩ := minus_line_step hc h2 w.mi
+  rw [e3] at e3'; cases e3'
+  obtain ⟨m4, e4, er4⟩ := runFrom_cons_ok er3
+  obtain ⟨m4', e4', h4, n4, t4, hp4, mf4⟩ := plus_line_step hc h3 w.pl
+  rw [e4] at e4'; cases e4'
+  have hrow : headerRow cfg m3.minusFile m3.minusEvent s.pl m3.n = s.row cfg m.n := by
+    unfold Sec.row
+    rw [mf3, me3, n3, n2, n1]
+    congr 1
+    omega
+  have hlen : (s.d :: (s.noise ++ s.mi :: s.pl :: (s.againLines ++ s.hunks))).length =
+      s.noise.length + s.againLines.length + s.hunks.length + 3 := by
+    simp only [List.length_cons, List.length_append]; omega
+  -- the plus-line step keeps the old file's name
+  obtain ⟨m5, e5, er5⟩ := runFrom_append_ok er4
+  have hmf4 : m4.minusFile = (parseDiffHeaderLine s.mi.text true).1 := mf4.trans mf3
+  obtain ⟨h5, t5, n5⟩ := again_run hc s w h4 hmf4 (by rw [hp4, mf3]) e5
+  cases hh : s.hunks with
+  | nil =>
+    rw [hh] at er5
+    simp only [runFrom] at er5
+    cases er5
+    refine ⟨h5.settled, ?_, ?_⟩
+    · rw [t5, t4, t3, t2, t1, hrow]
+    · show mf.n = m.n + (s.d :: (s.noise ++ s.mi :: s.pl :: (s.againLines ++ s.hunks))).length
+      rw [hlen, hh, n5, n4, n3, n2, n1]; simp; omega
+  | cons x xs =>
+    rw [hh] at er5
+    obtain ⟨m6, e6, er6⟩ := runFrom_cons_ok er5
+    have hx : isHHLineG x = true := w.first x (by rw [hh]; rfl)
+    obtain ⟨m6', e6', h6, t6, n6⟩ := hh_line_step (cfg := cfg) (Or.inl h5.st) h5.src h5.cnt h5.mode h5.pair h5.good hx
+    rw [e6] at e6'; cases e6'
+    obtain ⟨h7, t7, n7⟩ := hunks_run xs h6 (fun y hy => w.hunks y (by rw [hh]; exact List.mem_cons_of_mem _ hy)) er6
+    refine ⟨h7.settled, ?_, ?_⟩
+    · rw [t7, t6, t5, t4, t3, t2, t1, hrow]
+    · show mf.n = m.n + (s.d :: (s.noise ++ s.mi :: s.pl :: (s.againLines ++ s.hunks))).length
+      rw [hlen, hh, n7, n6, n5, n4, n3, n2, n1]; simp; omega
 
 /-- the file rows of a list of sections whose first line is input line `k` -/
 def rowsOf (cfg : Cfg) : Nat → List Sec → List Row
